@@ -15,6 +15,7 @@ Definition show_ev (e : ev) : list string :=
   | EDoubleFire => ["DOUBLE"]
   | EAssert => ["XA"]
   | ENoFire => ["NF"]
+  | EEpoch _ => []
   | EState r p => ["[r" ++ (if r then "1" else "0") ++ ";" ++ String.concat "," (map show_Z p) ++ "]"]
   end.
 
